@@ -204,6 +204,33 @@ def make_cell(rng, variant):
     return PhonopyAtoms(cell=np.array(lat, dtype=float), symbols=sym, scaled_positions=np.array(pos, dtype=float), **kw)
 
 
+def unwrapped_cell(cell, rs, mode, axes=(0, 1, 2)):
+    """the same crystal with unit-cell atoms listed as other lattice images: coordinates outside [0, 1) ("shift": +-1, +-2,
+    e.g. 1.5, -0.5), on the boundary ("edge": a coordinate 0 given as exactly 1.0, -1e-17, -1e-16, 1 - 1.1e-16), or both ("mixed")"""
+    from phonopy.structure.atoms import PhonopyAtoms
+
+    pos = np.array(cell.scaled_positions, dtype="double")
+    done = False
+    for _ in range(20):
+        for i in range(len(pos)):
+            for a in axes:
+                r = rs.randint(0, 4)
+                if mode in ("shift", "mixed") and r == 0:
+                    pos[i, a] += float(rs.choice([-2, -1, 1, 2]))
+                    done = True
+                elif mode in ("edge", "mixed") and abs(pos[i, a]) < 1e-12 and r in (1, 2):
+                    pos[i, a] = float(rs.choice([1.0, -1e-17, -1e-16, 1.0 - 1.2e-16, -0.0]))
+                    done = True
+        if done:
+            break
+    kw = dict(cell=np.array(cell.cell, dtype="double"), symbols=list(cell.symbols), scaled_positions=pos)
+    if cell.masses is not None:
+        kw["masses"] = list(cell.masses)
+    if getattr(cell, "magnetic_moments", None) is not None:
+        kw["magnetic_moments"] = cell.magnetic_moments
+    return PhonopyAtoms(**kw)
+
+
 def make_object(rng, rs, variant):
     from phonopy import Phonopy
     from phonopy.interface.calculator import get_default_physical_units
@@ -216,6 +243,10 @@ def make_object(rng, rs, variant):
         # the same crystal described by other lattice vectors (left-handed for det -1, sheared, permuted)
         cell, _qmap, smap = gen.relabelled_cell(cell, gen.UNIMODULAR[variant["relabel"]])
         smat = smap(smat)
+    if variant.get("unwrap"):
+        # along the directions in which the supercell is larger than the unit cell (there the image chosen matters)
+        axes = (0, 1, 2) if variant.get("relabel") else tuple(a for a in range(3) if variant["smat"][a] > 1)
+        cell = unwrapped_cell(cell, rs, variant["unwrap"], axes)
     ph = Phonopy(cell, supercell_matrix=smat, primitive_matrix=variant.get("pmat", "P"), factor=units["factor"], calculator=calc, log_level=0)
     scale = variant.get("scale", 1.0)
     fc_model = gen.pair_fc(ph.supercell, 4.6)
@@ -290,8 +321,21 @@ def cells_equal(run, a, b, what, case, mat=None):
         bad.append("symbols %s vs %s" % (list(a.symbols), list(b.symbols)))
     if not within_decimals(a.cell, b.cell, 15, sl):
         bad.append("lattice differs by %.3g" % maxdiff(a.cell, b.cell))
-    if not within_decimals(a.scaled_positions, b.scaled_positions, 15, sp):
-        bad.append("positions differ by %.3g" % maxdiff(a.scaled_positions, b.scaled_positions))
+    if np.shape(a.scaled_positions) != np.shape(b.scaled_positions):
+        bad.append("number of atoms %d vs %d" % (len(a.scaled_positions), len(b.scaled_positions)))
+    elif mat is None:
+        # the unit cell is the text itself: the same lattice images of the atoms, not only the same crystal
+        if not within_decimals(a.scaled_positions, b.scaled_positions, 15, sp):
+            bad.append("positions differ by %.3g" % maxdiff(a.scaled_positions, b.scaled_positions))
+    else:
+        # cells rebuilt by load: the same atoms in the same order; a coordinate may come back as another image of itself
+        # (a sub-ulp negative unit-cell coordinate is wrapped to 1.0 by the supercell builder, its printed value -0.0 to 0.0)
+        d = np.array(a.scaled_positions, dtype=float) - np.array(b.scaled_positions, dtype=float)
+        dm = d - np.rint(d)
+        if not within_decimals(dm, np.zeros_like(dm), 15, sp):
+            bad.append("positions (atom by atom, modulo lattice vectors) differ by %.3g" % float(np.abs(dm).max()))
+        elif np.abs(np.rint(d)).max() > 0:
+            run.count("%s: a coordinate is reproduced as another lattice image of itself, 1.0 vs 0.0 (observation, not a verdict)" % what, section="oracle")
     if (a.masses is None) != (b.masses is None) or (a.masses is not None and not within_decimals(a.masses, b.masses, 6)):
         bad.append("masses %s vs %s" % (a.masses, b.masses))
     ma, mb = a.magnetic_moments, b.magnetic_moments
@@ -1282,6 +1326,39 @@ def part_relabel(run, rng, rs, lines, meta):
 
 
 # --------------------------------------------------------------------------
+# part K: unit cells whose atoms are not listed inside [0, 1)
+# --------------------------------------------------------------------------
+
+def part_unwrapped(run, lines, meta):
+    """load() rebuilds supercell and primitive cell from the written unit cell, and the ORDER of the supercell atoms depends on
+    which lattice image of each atom the unit cell lists: the unit cell must come back as it was given (coordinates
+    1.5, -0.5, exactly 1.0, -1e-17 ...), or force constants / datasets end up on other atoms."""
+    import random as _random
+
+    thorough = run.tier == "thorough"
+    rng = _random.Random(16116 + 7919 * run.seed)          # own streams: the other parts of a seed stay what they were
+    rs = np.random.RandomState(16116 + 7919 * run.seed)
+    crystals = [("cscl", [2, 2, 1], "P"), ("nacl_prim", [2, 1, 2], "P"), ("nacl", [2, 1, 1], "auto"), ("nacl", [1, 1, 2], "F"), ("cscl", [1, 3, 2], "P")]
+    modes = ["shift", "edge", "mixed", "shift", "mixed"]
+    n = 40 if thorough else 5
+    for i in range(n):
+        cr = crystals[i % len(crystals)] if i < len(crystals) else rng.choice(crystals)
+        ds, fc = [("t1", "full"), ("t2", "compact"), ("t1", "produced"), ("t1-energy", "compact"), ("t2", "full")][i % 5] if i < 5 else rng.choice(
+            [("t1", "full"), ("t1", "compact"), ("t1", "produced"), ("t2", "full"), ("t2", "compact"), (None, "full"), ("t1-disp", "compact")])
+        v = dict(crystal=cr[0], smat=cr[1], pmat=cr[2], unwrap=modes[i % len(modes)], dataset=ds, fc=fc,
+                 settings=rng.choice([{"force_constants": True}, {"force_constants": True}, {}]), nac=rng.choice([None, "default", "custom"]), nac_factor=14.4,
+                 nac_method=rng.choice([None, "wang"]), compression=rng.choice([False, True]), extended=False, masses=rng.random() < 0.3, magmoms=None,
+                 calculator=None, scale=1.0, fc_noise=True, relabel=(rng.choice(sorted(gen.UNIMODULAR)) if (i % 5 == 4 and cr[2] == "P") else None))
+        ph = make_object(rng, rs, v)
+        up = np.array(ph.unitcell.scaled_positions)
+        case = dict(v, unit_cell_scaled_positions=[[repr(float(x)) for x in r] for r in up],
+                    note="unit cell atoms listed outside [0, 1) / on its boundary (harness/props/c16.py: unwrapped_cell)")
+        roundtrip(run, lines, meta, ph, v, case)
+        run.case(("unwrapped", up.tobytes(), repr(sorted((k, str(x)) for k, x in v.items()))), nontrivial=True)
+        run.count("unit cells with atoms outside [0, 1) (%s)" % v["unwrap"])
+
+
+# --------------------------------------------------------------------------
 # main
 # --------------------------------------------------------------------------
 
@@ -1335,6 +1412,7 @@ def main(run):
     t2 = time.time()
     part_multidump(run, rng, rs, lines, meta)
     part_relabel(run, rng, rs, lines, meta)
+    part_unwrapped(run, lines, meta)
     part_saveload(run, rng, rs, lines, meta)
     t3 = time.time()
     part_priority(run, rng, rs, lines, meta)
